@@ -264,7 +264,7 @@ LE_TARGETS = ['att_server', 'att_client', 'att_indicate', 'smp', 'le_sig', 'cid'
 
 def gen_le(rng, tier, seed):
     target = rng.choice(LE_TARGETS)
-    case = {'target': target, 'attacker_central': rng.random() < 0.5 or target == 'smp', 'profile': rng.choice(['zero', 'zero', 'lan', 'radio']), '_lists': ['frames']}
+    case = {'target': target, 'attacker_central': rng.random() < 0.5 or target == 'smp', 'profile': rng.choice(['zero', 'zero', 'lan', 'radio', 'burst']), '_lists': ['frames']}
     if target in ('att_server', 'att_indicate'):
         case['frames'] = _frames(rng, ATT_TO_SERVER)
     elif target == 'att_client':
@@ -588,7 +588,7 @@ def _at_special(rng):
 
 def gen_classic(rng, tier, seed):
     target = rng.choice(CL_TARGETS)
-    case = {'target': target, 'profile': rng.choice(['zero', 'zero', 'lan', 'radio']), '_lists': ['frames']}
+    case = {'target': target, 'profile': rng.choice(['zero', 'zero', 'lan', 'radio', 'burst']), '_lists': ['frames']}
     if target == 'cl_sig':
         case['frames'] = _frames(rng, CL_SIG)
     elif target == 'sdp':
@@ -1008,7 +1008,7 @@ def gen_hci(rng, tier, seed):
         else:
             n = rng.choice([0, 1, 2, 8])
             frames.append((bytes([rng.choice([0x00, 0x01, 0x06, 0x07, 0x7F, 0xFF])]) + bytes(rng.randrange(256) for _ in range(n))).hex())
-    return {'frames': frames, 'victim_central': rng.random() < 0.5, 'pending_cmd': rng.random() < 0.3, 'profile': rng.choice(['zero', 'zero', 'lan']), '_lists': ['frames']}
+    return {'frames': frames, 'victim_central': rng.random() < 0.5, 'pending_cmd': rng.random() < 0.3, 'profile': rng.choice(['zero', 'zero', 'lan', 'burst']), '_lists': ['frames']}
 
 
 DISRUPTIVE = ('Disconnection_Complete', 'Connection_Complete', 'Enhanced_Connection_Complete', 'Hardware_Error')
